@@ -53,7 +53,7 @@ func propTable() map[string]PropSpec {
 	}
 	t["C07"] = PropSpec{
 		ID: "C07", Pkg: coordPkg, NativeDir: "coordinator",
-		Quick:    []HarnessRun{H("VScaleDown", 6, 2, 1), H("VScaleDown", 6, 3, 1), H("VCycle", 12, 1, 1, 0), H("VCycle", 8, 2, 0, 0), H("VCycle", 4, 3, 0, 0)},
+		Quick:    []HarnessRun{H("VScaleDown", 6, 2, 1), H("VScaleDown", 6, 3, 1), H("VCycle", 12, 1, 1, 0), H("VCycle", 8, 2, 0, 0)},
 		Thorough: []HarnessRun{H("VScaleDown", 6, 2, 2), H("VScaleDown", 6, 3, 1), H("VScaleDown", 6, 3, 2), H("VCycle", 12, 1, 1, 2), H("VCycle", 8, 1, 2, 0), H("VCycle", 8, 2, 1, 0), H("VCycle", 4, 3, 0, 0), H("VCycle", 4, 4, 0, 8)},
 		Required: []string{"scaledown.end", "c07.scalecall", "scaledown.moved"},
 		Prefixes: []string{"C07."},
@@ -83,7 +83,7 @@ func propTable() map[string]PropSpec {
 	}
 	relabelSubst := map[string]string{"github.com/prometheus/prometheus/model/relabel.Process": scrapePkg + ".VRelabelModel"}
 	P := func(entry string, cosim int, args ...int) HarnessRun {
-		return HarnessRun{Entry: entry, Args: args, Cosim: cosim, Subst: proxySubst, Unwind: 160}
+		return HarnessRun{Entry: entry, Pkg: sidePkg, Args: args, Cosim: cosim, Subst: proxySubst, Unwind: 160}
 	}
 	sideAssume := []string{
 		"logging and metrics calls are no-ops; errors are opaque non-nil values; fmt.Errorf with literal text in the format never yields the empty string",
